@@ -263,6 +263,10 @@ def count_invocations(cfg, doc: str, site: str) -> int:
     return box[0]
 
 
+_BLOCKED: dict = {}
+_STALLED: list = []
+
+
 def check_nested(case, res: Res) -> None:
     cfg, docs, site, k, state = case["cfg"], case["docs"], case["site"], case["k"], case["state"]
     d1, d2 = docs[0], docs[1]
@@ -294,11 +298,47 @@ def check_nested(case, res: Res) -> None:
         ctrl3 = C.build(cfg)
         install(ctrl3, site, lambda: None)
         expected_outer = [ctrl3.renderInline(d1, env_c2), env_c2]
-    try:
-        got = [outer(d1, env), env]
-    except RecursionError as e:
-        res.fail(f"nested:{site}:RecursionError", repr(e)[:200])
+    if _BLOCKED.get(site):
+        res.cls.append("nested:skipped(after a blocked call at this site in this process)")
         return
+    box: dict = {}
+
+    def run_outer():
+        try:
+            box["got"] = [outer(d1, env), env]
+        except RecursionError as e:
+            box["rec"] = e
+        except BaseException as e:  # noqa: BLE001
+            box["exc"] = e
+
+    import sys as _sys
+    import threading
+    import time as _time
+
+    th = threading.Thread(target=run_outer, daemon=True)
+    th.start()
+    th.join(15.0)
+    if th.is_alive():
+        # not a verdict on speed: the call is *blocked* if its thread executes no byte-code between two observations
+        def where():
+            fr = _sys._current_frames().get(th.ident)
+            return (id(fr), fr.f_lasti, fr.f_code.co_name) if fr is not None else None
+
+        w1 = where()
+        _time.sleep(1.0)
+        w2 = where()
+        if th.is_alive() and w1 is not None and w1 == w2:
+            _BLOCKED[site] = True
+            res.nt = True
+            res.fail(f"nested:{site}:call-blocked", f"re-entering render(d2) at invocation {k} of the {site} rule: the outer call has not returned and its thread executes no byte-code (blocked in {w2[2]!r}); alone it returns at once")
+            return
+        th.join()
+    if "rec" in box:
+        res.fail(f"nested:{site}:RecursionError", repr(box["rec"])[:200])
+        return
+    if "exc" in box:
+        raise box["exc"]
+    got = box["got"]
     if re.inner is None:
         res.cls.append("nested:k-beyond-invocations")
         return
@@ -373,6 +413,9 @@ def check(case) -> Res:
         check_ramp(case, res)
         return res
     cfg, docs, calls, state = case["cfg"], case["docs"], case["calls"], case["state"]
+    if _STALLED:
+        res.cls.append("threads:skipped(the library blocks while pre-empted; scheduler not applicable in this process)")
+        return res
     key = repr(cfg)
     if key not in _WARMED:
         for dd in docs:
@@ -385,6 +428,10 @@ def check(case) -> Res:
     limit = 5 * max(counts) + 50000
     s = sched.Sched(fns, list(case["plan"]), limit)
     results, got_counts = s.run()
+    if s.stalled:
+        _STALLED.append(True)
+        res.cls.append("threads:scheduler-stall(non-verdict: the library blocked while another call was pre-empted)")
+        return res
     inside = s.switches >= 1 and all(c > 0 for c in got_counts) and any(0 < a < counts[i] for (i, a, _j) in s.switch_log)
     res.nt = bool(inside) and state != "warm"
     res.cls.append("state:" + state)
